@@ -148,7 +148,7 @@ Section P.
 
   (* ODatetime: the three branches of parse_datetimespec *)
   Ltac dt_branches k :=
-    destruct (String.eqb k "now"); [|destruct (String.eqb k "today")].
+    destruct (String.eqb k "now"); [|destruct (String.eqb k "today"); [|destruct (is_relative_spec k)]].
 
   Lemma step_coherent e ver p s o : coherent p -> coherent (fst (step e ver p s o)).
   Proof.
@@ -212,7 +212,8 @@ Section P.
     is_clock_key k = true -> fst (step e ver p s (ODatetime k)) = p.
   Proof.
     unfold is_clock_key. cbn [Isolation.step]. intros H.
-    destruct (String.eqb k "now"); [reflexivity|]. cbn [orb] in H. rewrite H. reflexivity.
+    destruct (String.eqb k "now"); [reflexivity|]. cbn [orb] in H.
+    destruct (String.eqb k "today"); [reflexivity|]. cbn [orb] in H. rewrite H. reflexivity.
   Qed.
 
   (* ---------------------------------------------------------------- noninterference *)
@@ -246,6 +247,7 @@ Section P.
       cbn [snd fst set_dates p_rowhist p_uid] in *. subst r1 r2. splits; auto.
     - destruct (String.eqb k "now"); [cbn [fst snd]; splits; auto|].
       destruct (String.eqb k "today"); [cbn [fst snd]; splits; auto|].
+      destruct (is_relative_spec k); [cbn [fst snd]; splits; auto|].
       pose proof (lru_call_value date_cache_size parse_dt (p_dts p1) k (fun v H => Ht1 k v H)) as V1.
       pose proof (lru_call_value date_cache_size parse_dt (p_dts p2) k (fun v H => Ht2 k v H)) as V2.
       destruct (lru_call date_cache_size parse_dt (p_dts p1) k) as [c1 r1].
